@@ -278,6 +278,31 @@ def r4(ctx):
             ctx.ob('C15.R4', f, c, False, 'getAnswer() call in %s' % f.name, 'answer lookup outside the receive state machine')
 
 
+def fresh_answer_rule(ctx, rid):
+    ctx.rule(rid, 'the decision to answer is taken anew for every received command, also for the repetition after a NAK: every '
+             'transition out of recvCmdCrc into an answering state (sendCmdAck) passes m_currentAnswering = getAnswer() on '
+             'every path from the entry of that state arm; a decision kept from the first attempt lets ebusd acknowledge and '
+             'answer a repetition that is addressed to somebody else', minimum=2, star=True)
+    import rules.automaton as A
+    fb = ctx.fb
+    fn, sw, regs, edges, rmap = A.extracted_edges(fb)
+    states, _ = A.bus_states(fb)
+    inv = {v: k for k, v in states.items()}
+    lab = sw['labels'][inv['bs_recvCmdCrc']]
+    fresh = set(nid for nid, d, rhs, op, lhs in fn.assignments() if d == 'this.m_currentAnswering' and rhs is not None and
+                'getAnswer()' in fn.key(rhs))
+    n = 0
+    for e in edges:
+        if e['from'] != ['bs_recvCmdCrc'] or 'bs_sendCmdAck' not in e['to']:
+            continue
+        n += 1
+        stale = fn.reaches_point(lab, fn.pos(e['node']), fresh)
+        ctx.ob(rid, fn, e['node'], not stale, 'recvCmdCrc -> %s (%s)' % ('/'.join(e['to']), e['result']),
+               'answer decision renewed on every path into this transition: %s' % (not stale))
+    if n < 2:
+        raise AnalysisBroken('%s: only %d answering transitions out of recvCmdCrc found' % (rid, n))
+
+
 def r5(ctx):
     ctx.rule('C15.R5', 'longest matching ID wins across source variants: inside the loop that shortens the lookup key, both '
              'the source-specific key and the source-wildcard key are probed before the key is shortened again (a loop that '
@@ -344,3 +369,4 @@ def run(ctx):
     r5(ctx)
     r6(ctx)
     r7(ctx)
+    fresh_answer_rule(ctx, 'C15.R9')
